@@ -89,6 +89,9 @@ pub struct Fixture {
     pub unauthorized: UserSecretKey,
     /// one key per entry of `KEY_POLICIES`
     pub keys: Vec<UserSecretKey>,
+    /// public key of a second authority that declares the same names in another order (other
+    /// attribute ids): encrypting for it first must not influence the next encryption
+    pub other_mpk: MasterPublicKey,
 }
 
 pub fn fixture() -> Result<Fixture, Fail> {
@@ -108,7 +111,17 @@ pub fn fixture() -> Result<Fixture, Fail> {
     for p in &KEY_POLICIES[2..] {
         keys.push(cc.generate_user_secret_key(&mut msk, &AccessPolicy::parse(p).map_err(e)?).map_err(e)?);
     }
-    Ok(Fixture { cc, mpk, authorized, unauthorized, keys })
+    let (mut msk2, _) = cc.setup().map_err(e)?;
+    msk2.access_structure.add_anarchy("DPT".into()).map_err(e)?;
+    msk2.access_structure.add_attribute(qa("DPT", "HR"), hint(false), None).map_err(e)?;
+    msk2.access_structure.add_attribute(qa("DPT", "FIN"), hint(false), None).map_err(e)?;
+    msk2.access_structure.add_hierarchy("SEC".into()).map_err(e)?;
+    msk2.access_structure.add_attribute(qa("SEC", "LOW"), hint(false), None).map_err(e)?;
+    msk2.access_structure.add_attribute(qa("SEC", "TOP"), hint(true), Some("LOW")).map_err(e)?;
+    let other_mpk = cc.update_msk(&mut msk2).map_err(e)?;
+    // back to the first authority: whatever an instance remembers from `update_msk` is now
+    // about a master key that is not the one of `mpk`
+    Ok(Fixture { cc, mpk, authorized, unauthorized, keys, other_mpk })
 }
 
 fn same_aad(a: &Option<Vec<u8>>, b: &Option<Vec<u8>>) -> bool {
@@ -132,6 +145,11 @@ pub fn check_case(case: &PkeCase, col: &Collector) -> CheckResult {
     }
 
     // ---------------- PKE
+    if case.pos % 3 != 0 {
+        // the same instance first encrypts the same policy for another authority
+        col.class("decoy:same-policy-under-another-public-key");
+        let _ = pke_encrypt(&fx.cc, &fx.other_mpk, &ap, &ptx);
+    }
     let (enc, body) = pke_encrypt(&fx.cc, &fx.mpk, &ap, &ptx).map_err(|e| Fail::new("pke-encrypt-failed", short_err(&e)))?;
     if body.len() != ptx.len() + 28 {
         return Err(Fail::new("pke-ciphertext-length", format!("plaintext {} bytes -> ciphertext {} bytes, expected +28 (nonce, tag)", ptx.len(), body.len())));
@@ -180,6 +198,41 @@ pub fn check_case(case: &PkeCase, col: &Collector) -> CheckResult {
             Ok(Some(_)) => return Err(Fail::new(format!("pke-tampered-accepted:{what}"), format!("{what} of a {}-byte PKE ciphertext (-> {} bytes) was accepted", body.len(), b.len()))),
         }
     }
+    // the encapsulation part without components / without traps (re-encoded through the codec):
+    // an error or 'not authorized', never a panic, for the PKE and for the header
+    if case.tamper == 0 || case.pos % 4 == 0 {
+        if let Ok(w) = crate::wire::WXEnc::decode(&ser(&enc)?) {
+            let mut a = w.clone();
+            a.encs.clear();
+            let mut b = w.clone();
+            b.c.clear();
+            for (what, v) in [("no-component", a), ("no-trap", b)] {
+                let Ok(x) = de::<XEnc>(&v.encode()) else { continue };
+                col.class(&format!("xenc-tamper:{what}"));
+                // on an instance of its own: a panic must not be hidden by a poisoned lock
+                let cc = Covercrypt::default();
+                let r = std::panic::catch_unwind(std::panic::AssertUnwindSafe(|| pke_decrypt(&cc, authorized, &(x.clone(), body.clone()))));
+                match r {
+                    Ok(Ok(Some(_))) => return Err(Fail::new(format!("pke-tampered-accepted:{what}"), format!("PKE ciphertext whose encapsulation has {what}: decrypted"))),
+                    Ok(_) => {}
+                    Err(_) => {
+                        let (loc, msg) = crate::runner::take_panic();
+                        return Err(Fail::new(format!("pke-decrypt-panic@{loc}"), format!("PKE ciphertext whose encapsulation has {what}: decrypt panicked at {loc}: {msg}")));
+                    }
+                }
+                let h = EncryptedHeader { encapsulation: x, encrypted_metadata: None };
+                let r = std::panic::catch_unwind(std::panic::AssertUnwindSafe(|| h.decrypt(&cc, authorized, None)));
+                match r {
+                    Ok(Ok(Some(_))) => return Err(Fail::new(format!("header-tampered-accepted:{what}"), format!("header whose encapsulation has {what}: decrypted"))),
+                    Ok(_) => {}
+                    Err(_) => {
+                        let (loc, msg) = crate::runner::take_panic();
+                        return Err(Fail::new(format!("header-decrypt-panic@{loc}"), format!("header whose encapsulation has {what}: decrypt panicked at {loc}: {msg}")));
+                    }
+                }
+            }
+        }
+    }
     // every truncation for short inputs
     if body.len() <= 64 {
         for n in 0..body.len() {
@@ -194,6 +247,9 @@ pub fn check_case(case: &PkeCase, col: &Collector) -> CheckResult {
     // ---------------- encrypted header
     let md = materialize(&case.metadata, case.fill.wrapping_add(1));
     let aad_gen = materialize(&case.aad_gen, case.fill.wrapping_add(2));
+    if case.pos % 3 == 1 {
+        let _ = EncryptedHeader::generate(&fx.cc, &fx.other_mpk, &ap, md.as_deref(), aad_gen.as_deref());
+    }
     let (secret, header) = EncryptedHeader::generate(&fx.cc, &fx.mpk, &ap, md.as_deref(), aad_gen.as_deref()).map_err(|e| Fail::new("header-generate-failed", short_err(&e)))?;
     let aad_dec: Option<Vec<u8>> = match case.aad_dec {
         0 => aad_gen.clone(),
@@ -314,14 +370,14 @@ pub fn check_case(case: &PkeCase, col: &Collector) -> CheckResult {
 
 pub fn run(ctx: &Ctx, col: &Collector) -> Meta {
     run_cases(&ctx.run_cfg(ctx.n(6000, 150_000), 1), "pke", strategy, col, check_case);
-    for c in ["c12:boundary-length", "c12:mismatching-aad", "c12:truncated-below-nonce", "c12:unauthorized-key", "aad:absent-vs-empty", "pke-truncations", "header-metadata-tamper", "header:via-serialization", "policy:SEC::TOP && DPT::HR || DPT::FIN key:SEC::TOP && DPT::HR", "policy:SEC::TOP && DPT::HR || DPT::FIN key:SEC::LOW && DPT::FIN", "policy:* key:DPT::HR"] {
+    for c in ["c12:boundary-length", "c12:mismatching-aad", "c12:truncated-below-nonce", "c12:unauthorized-key", "aad:absent-vs-empty", "pke-truncations", "header-metadata-tamper", "header:via-serialization", "policy:SEC::TOP && DPT::HR || DPT::FIN key:SEC::TOP && DPT::HR", "policy:SEC::TOP && DPT::HR || DPT::FIN key:SEC::LOW && DPT::FIN", "policy:* key:DPT::HR", "decoy:same-policy-under-another-public-key", "xenc-tamper:no-component"] {
         if col.class_count(c) == 0 && !col.stopped() {
             col.note(format!("generator unhealthy: class {c} empty"));
         }
     }
     Meta {
         level: "exploration",
-        rule: format!("generated (plaintext length, metadata shape, authentication data at generation and at decryption, tampering) tuples; lengths from the boundary set {BOUNDARY:?} and random up to 64 KiB; metadata / authentication data absent, empty or non-empty; authentication data at decryption equal, absent<->empty swapped, altered, truncated or absent; bit flips, truncations (every length for bodies <= 64 bytes), extensions; authorized and unauthorized keys; classic, hybridized, broadcast, fully hybridized multi-target and mixed-flavour policies (the latter opened through the hybridized branch only and through the classic branch only). Oracle: exact round-trip for authorized keys, None for unauthorized, Err for differing authentication data or any tampering. Non-trivial = boundary length, mismatching authentication data, truncation below the nonce length, or unauthorized key; distinct by case"),
+        rule: format!("generated (plaintext length, metadata shape, authentication data at generation and at decryption, tampering) tuples; lengths from the boundary set {BOUNDARY:?} and random up to 64 KiB; metadata / authentication data absent, empty or non-empty; authentication data at decryption equal, absent<->empty swapped, altered, truncated or absent; bit flips, truncations (every length for bodies <= 64 bytes), extensions, the encapsulation part re-encoded without components / without traps (error or None, never a panic); two encryptions in three are preceded by an encryption of the same policy under the public key of another authority (same names, other attribute ids) on the same instance; authorized and unauthorized keys; classic, hybridized, broadcast, fully hybridized multi-target and mixed-flavour policies (the latter opened through the hybridized branch only and through the classic branch only). Oracle: exact round-trip for authorized keys, None for unauthorized, Err for differing authentication data or any tampering. Non-trivial = boundary length, mismatching authentication data, truncation below the nonce length, or unauthorized key; distinct by case"),
         exhaustive: false,
         assumptions: vec![
             "when the header carries no metadata nothing is symmetrically encrypted, so differing authentication data cannot be (and is not required to be) detected; counted, not judged".into(),
